@@ -1,7 +1,7 @@
 #!/usr/bin/env python3
 """Reference runner (CPython): same JSON protocol as `impl runpy`.  Used as a validated oracle
 on the fragment where Python 3.4 and this CPython agree."""
-import sys, json, io, contextlib, traceback
+import sys, json, io, contextlib, traceback, gc
 def run(c):
     out = io.StringIO(); res = {"out": "", "err": ""}
     g = {"__name__": "__main__"}
@@ -18,6 +18,9 @@ def run(c):
             tb = tb.tb_next
         res["tb"] = lines
     res["out"] = out.getvalue()
+    # finalise leftover generators now (their finally blocks may print), not during the next case
+    with contextlib.redirect_stdout(io.StringIO()):
+        g.clear(); gc.collect()
     return res
 for line in sys.stdin:
     if line.strip():
